@@ -216,10 +216,37 @@ func (c *Cache) refreshIfRequired(force bool) (bool, error) {
 	// We need to refresh if
 	// - it's forced by an explicit call to Refresh() in manual mode
 	// - a missing Spec dir appears (added to watch) in auto-refresh mode
-	if force || (c.autoRefresh && c.watch.update(c.dirErrors)) {
+	// - we hold Specs or errors from a Spec dir we are not watching
+	if force || (c.autoRefresh && (c.watch.update(c.dirErrors) || c.hasUnwatchedContent())) {
 		return true, c.refresh()
 	}
 	return false, nil
+}
+
+// hasUnwatchedContent returns true if the cache holds Specs or Spec errors
+// from a directory which is not being watched. This can happen if a Spec
+// directory gets removed and recreated (or recreated and removed again)
+// before we get around to watching it again. Since we would not notice
+// any changes to such content, it needs to be rescanned.
+func (c *Cache) hasUnwatchedContent() bool {
+	for dir, tracked := range c.watch.tracked {
+		if tracked {
+			continue
+		}
+		for _, specs := range c.specs {
+			for _, spec := range specs {
+				if filepath.Dir(spec.GetPath()) == dir {
+					return true
+				}
+			}
+		}
+		for path := range c.errors {
+			if filepath.Dir(path) == dir {
+				return true
+			}
+		}
+	}
+	return false
 }
 
 // InjectDevices injects the given qualified devices to an OCI Spec. It
